@@ -1,6 +1,9 @@
 (* C12/C13 — the comparison projection.  A Go network holds no tables: a shared definition
    exists for an observer only as far as some attached entity refers to it.  `prune` keeps
-   exactly the table entries reachable from the buses (the same reference walk as the saver). *)
+   exactly the table entries reachable from the buses (the same reference walk as the saver);
+   `canon` also puts them in the saver's order (stable sort by name; nodes by node id).
+   `canon n` is what a save and load of `n` produces; `proj` = `canon` is the projection under
+   which the round trip is the identity. *)
 From Coq Require Import ZArith List String Bool.
 From Acme.C12 Require Import Proto NetModel Save.
 Import ListNotations.
@@ -13,3 +16,14 @@ Definition prune (n : net) : net :=
      n_units := filter (fun u => memb (unit_key u) (ref_units n)) (n_units n);
      n_enums := filter (fun e => memb (enum_key e) (ref_enums n)) (n_enums n);
      n_attrs := filter (fun a => memb (attr_key a) (ref_attrs n)) (n_attrs n) |}.
+
+Definition canon (n : net) : net :=
+  {| n_ent := n_ent n; n_buses := n_buses n;
+     n_builders := isort (by_name cb_ent) (filter (fun b => memb (builder_key b) (ref_builders n)) (n_builders n));
+     n_nodes := isort (fun a b => Z.leb (nd_id a) (nd_id b)) (saved_nodes n);
+     n_types := isort (by_name st_ent) (filter (fun t => memb (type_key t) (ref_types n)) (n_types n));
+     n_units := isort (by_name su_ent) (filter (fun u => memb (unit_key u) (ref_units n)) (n_units n));
+     n_enums := isort (by_name se_ent) (filter (fun e => memb (enum_key e) (ref_enums n)) (n_enums n));
+     n_attrs := isort (by_name at_ent) (filter (fun a => memb (attr_key a) (ref_attrs n)) (n_attrs n)) |}.
+
+Definition proj (n : net) : net := canon n.
